@@ -286,8 +286,25 @@ def run(E: Engine, rep: Report, tier: str) -> dict:
     rep.check(avail, "MODE", "Sequence.config_slm_mask|dmm-availability-on-parametrized-sequence", "the DMM must still be available on the parametrized path (Ising mode)", "on a parametrized sequence config_slm_mask() never checks that the DMM is still available: on a physical device the mask is accepted on the DMM a detuning map already uses, which a regular sequence refuses", E.where(csm))
     # a stored config_slm_mask call declares a DMM only outside XY mode (in XY the mask is not played by a DMM)
     dcp = next(g for g in E.cls(SEQ).methods.get("declared_channels", []) if g.kind != "setter")
-    scans = [x for l in _S2(E, dcp).log for x in _sym2.conj_of(l.cond) if "config_slm_mask" in _sh13(x, 400)]
-    ok_xy = bool(scans) and all(any(_sym2.mk_not(("attr", ("name", "self"), "_in_xy")) in _sym2.conj_of(d_) if d_[0] == "and" else False for d_ in ([x] if x[0] != "or" else list(x[1:]))) or any(_sym2.mk_not(("attr", ("name", "self"), "_in_xy")) in _sym2.conj_of(l2.cond) for l2 in _S2(E, dcp).log if x in _sym2.conj_of(l2.cond)) for x in scans)
+    # (decided on the writes of the returned table: in the disjunctive normal form of the condition of every write made
+    #  inside the scan of the stored calls, a disjunct that selects `name == 'config_slm_mask'` also holds `not self._in_xy`)
+    from .symutil import dnf as _dnf13
+
+    not_xy = _sym2.mk_not(("attr", ("name", "self"), "_in_xy"))
+    n_slm = 0
+    ok_xy = True
+    for l in _S2(E, dcp).log:
+        if not (l.kind == "store" and l.loops and l.target is not None and l.target[0] == "idx"):
+            continue
+        for conj in _dnf13(l.cond):
+            sel = [x for x in conj if x[0] == "cmp" and x[1] == "Eq" and ("const", "config_slm_mask") in (x[2], x[3])] + [x for x in conj if x[0] == "cmp" and x[1] == "In" and "config_slm_mask" in _sh13(x[3], 200)]
+            if not sel:
+                continue
+            if any(x[0] == "cmp" and x[1] == "Eq" and ("const", "config_detuning_map") in (x[2], x[3]) for x in conj):
+                continue  # (an infeasible / detuning-map disjunct)
+            n_slm += 1
+            ok_xy = ok_xy and not_xy in conj
+    ok_xy = ok_xy and n_slm > 0
     rep.check(ok_xy, "MODE", "Sequence.declared_channels|stored-slm-mask-declares-a-dmm-only-outside-xy", "`call.name == 'config_slm_mask' and not self._in_xy`", "declared_channels counts a stored config_slm_mask call as a DMM declaration in XY mode too: a parametrized XY sequence lists 'dmm_0' next to its Microwave channel and accepts add_dmm_detuning / delay on it", E.where(dcp))
     # measure() records the measurement as its LAST step: everything that can still stop the call (the unsupported-basis
     # error, and the "basis not addressed" warning, which is an exception under -W error / pytest's error filter)
